@@ -112,6 +112,9 @@ type Scenario struct {
 	// PreHeaders are already on the ResponseWriter when the library is called (set by middleware or
 	// by the application's authentication hook).
 	PreHeaders map[string][]string
+	// Prelude requests are served first (fault-free, each as a request of its own) on the same
+	// application: the scenario then starts from a non-initial state.
+	Prelude []*Scenario
 }
 
 // RunOut is what one request produced.
@@ -142,6 +145,9 @@ func (sc *Scenario) World() *ap.App {
 // Exec runs the scenario once on a fresh world under execution x.
 func (sc *Scenario) Exec(x *mc.Exec, faults bool) *RunOut {
 	a := sc.World()
+	for _, p := range sc.Prelude {
+		p.On(a, nil)
+	}
 	a.X = x
 	a.Faults = faults
 	return sc.On(a, nil)
@@ -308,6 +314,43 @@ func CorpusWithHooks() []*Scenario {
 			a.Callbacks = ap.CBWrappedReenter
 		}
 		out = append(out, &c2)
+		// ... and with application callbacks that fail AFTER the default effect succeeded
+		c3 := *sc
+		c3.Name += "+failing-hooks"
+		c3.Tweak = func(a *ap.App) {
+			if inner != nil {
+				inner(a)
+			}
+			a.Callbacks = ap.CBWrappedFail
+		}
+		out = append(out, &c3)
+	}
+	return out
+}
+
+// HistoryCorpus: every POST scenario of the corpus again, started from the state an EARLIER request of
+// the same kind left behind (the same body under another activity id; for the outbox simply posted
+// twice): a second Follow from a peer who already follows, a second Like of a liked object, ...
+func HistoryCorpus() []*Scenario {
+	var out []*Scenario
+	for _, sc := range Corpus() {
+		if (sc.Entry != "PostInbox" && sc.Entry != "PostOutbox") || sc.Body == nil {
+			continue
+		}
+		earlier := *sc
+		earlier.Name += "/earlier"
+		if id, ok := sc.Body["id"].(string); ok {
+			b := M{}
+			for k, v := range sc.Body {
+				b[k] = v
+			}
+			b["id"] = id + "-earlier"
+			earlier.Body = b
+		}
+		c := *sc
+		c.Name += "+after-the-same-request-under-another-id"
+		c.Prelude = []*Scenario{&earlier}
+		out = append(out, &c)
 	}
 	return out
 }
